@@ -45,7 +45,27 @@ class World:
         self.flip += 1
         if self.flip % 2 == 0:
             tm = s1.Service1Tm.unpack(bytes(tm.pack()), s1.UnpackParams(7, 1, 1))
+        elif self.flip % 3 == 0:
+            # the report is built around ONE request-ID object the application keeps and re-fills for every report (its
+            # fields are public): the tracker must go by what the object holds now
+            tm = s1.Service1Tm(apid=5, subservice=s1.Subservice(sub), timestamp=stamp,
+                               verif_params=s1.VerificationParams(self.lookup_rid(t), step if sub in (5, 6) else None,
+                                                                  fn if sub % 2 == 0 else None))
         return tm
+
+    def lookup_rid(self, t):
+        from spacepackets.ecss.req_id import RequestId
+        from spacepackets.ccsds.spacepacket import PacketId, PacketSeqCtrl
+        src = self.rid[t]
+        if getattr(self, "shared", None) is None:
+            self.shared = RequestId(PacketId(src.tc_packet_id.ptype, src.tc_packet_id.sec_header_flag, 0x7FF),
+                                    PacketSeqCtrl(src.tc_psc.seq_flags, 0x3FFF), 0)
+            {self.shared: 1}                      # used as a key once before it is re-filled
+        r = self.shared
+        r.tc_packet_id = PacketId(src.tc_packet_id.ptype, src.tc_packet_id.sec_header_flag, src.tc_packet_id.apid)
+        r.tc_psc = PacketSeqCtrl(src.tc_psc.seq_flags, src.tc_psc.seq_count)
+        r.ccsds_version = src.ccsds_version
+        return r
 
     def ghost_report(self, t, sub, k, how):
         """a report for a request ID that equals TC t's except for one group of bits"""
@@ -106,7 +126,8 @@ class World:
                 return {"none": True}
             return {"completed": bool(r.completed), "status": self.status(r.status)}
         if a == "remove_entry":
-            return bool(v.remove_entry(self.rid[ev["t"]]))
+            self.flip += 1
+            return bool(v.remove_entry(self.lookup_rid(ev["t"]) if self.flip % 2 else self.rid[ev["t"]]))
         if a == "remove_completed":
             v.remove_completed_entries()
             return "none"
